@@ -362,15 +362,31 @@ func propC08(w *World, r *Report) {
 			frameArg := call.Call.Args[1]
 			okAll := true
 			detail := ""
-			if refs := frameArg.Referrers(); refs != nil {
+			// the frame value may also be handed on to other methods of the processor, where the same rule applies
+			var visit func(v ssa.Value, depth int)
+			visit = func(v ssa.Value, depth int) {
+				refs := v.Referrers()
+				if refs == nil {
+					return
+				}
 				for _, rf := range *refs {
 					switch x := rf.(type) {
 					case *ssa.Call:
 						nm := calleeName(x)
-						if !(strings.HasSuffix(nm, ".Detect") || strings.HasSuffix(nm, ".WriteFrame")) {
-							okAll = false
-							detail += nm + " "
+						if strings.HasSuffix(nm, ".Detect") || strings.HasSuffix(nm, ".WriteFrame") {
+							continue
 						}
+						callee := x.Call.StaticCallee()
+						if callee != nil && depth < 3 && callee.Signature.Recv() != nil && isPtrTo(callee.Signature.Recv().Type(), runs.model.C.T) && len(callee.Blocks) > 0 {
+							for i, a := range x.Call.Args {
+								if a == v && i < len(callee.Params) {
+									visit(callee.Params[i], depth+1)
+								}
+							}
+							continue
+						}
+						okAll = false
+						detail += nm + " "
 					case *ssa.DebugRef:
 					default:
 						okAll = false
@@ -378,6 +394,7 @@ func propC08(w *World, r *Report) {
 					}
 				}
 			}
+			visit(frameArg, 0)
 			r.Check(okAll, "N6", fn.Name()+": the frame is only handed to Detect and to sink writes", w.InstrPos(call), detail)
 		}
 	}
